@@ -1,0 +1,23 @@
+//! Verification hooks, compiled only with `--cfg sourcemap_verif`.
+//!
+//! A harness can install a callback that is invoked at named yield points
+//! inside `SourceView::get_line`, which lets it drive real threads through a
+//! chosen interleaving.  Without the cfg flag none of this exists.
+use std::sync::{Arc, RwLock};
+
+type Hook = Arc<dyn Fn(u32) + Send + Sync>;
+
+static HOOK: RwLock<Option<Hook>> = RwLock::new(None);
+
+/// Installs (or with `None` removes) the yield-point callback.
+pub fn set_hook(hook: Option<Hook>) {
+    *HOOK.write().unwrap() = hook;
+}
+
+/// Called by instrumented code; `point` identifies the call site.
+pub fn yield_point(point: u32) {
+    let hook = HOOK.read().unwrap().clone();
+    if let Some(hook) = hook {
+        hook(point);
+    }
+}
